@@ -19,6 +19,7 @@ from hypothesis import strategies as st
 
 from .. import gen, genheat
 from ..recipe import RELOADS, abbreviate, build, exc_sig, reload_net, res_tables
+from ..refmodel import reach
 from ..runner import Finding, Outcome, derive_seed, run_given
 
 RULE = ("driver: scripts of per-iteration (errors per unknown, residual) incl. 0, tiny, huge, nan, inf; max_iter 0..12; both "
@@ -35,7 +36,7 @@ ASSUMPTIONS = ["documented rejections of invalid input (UserWarning: reversed ci
 NSHARDS = {"quick": 16, "thorough": 16}
 EX_DRV = {"quick": 1500, "thorough": 40000}
 EX_E2E = {"quick": 45, "thorough": 1500}
-EX_HIS = {"quick": 14, "thorough": 500}
+EX_HIS = {"quick": 40, "thorough": 800}
 
 pf = None
 
@@ -445,14 +446,23 @@ def history_case(draw):
     if heat:
         rec = draw(genheat.heat_net(max_n=3))
         base = draw(genheat.heat_options(tight=False))
+    elif draw(st.integers(0, 3)) == 0:
+        # two districts with a feeder each: feeder outages change what is supplied, nothing else
+        rec = draw(gen.two_districts(max_n=6))
+        base = draw(gen.hyd_options(tight=False, friction_model="nikuradse"))
+        base["mode"] = "hydraulics"
     else:
         rec, base = draw(gen.hyd_case(max_n=6, tight=False))
         base["mode"] = "hydraulics"
     steps = draw(st.lists(st.tuples(st.sampled_from(["ok", "ok", "overload", "max_iter0", "max_iter1", "zero_tol", "no_supply",
-                                                     "automatic", "other_mode"]),
+                                                     "automatic", "other_mode", "one_feeder_off", "one_feeder_off"]),
                                     st.integers(0, 10),
                                     st.sampled_from(["none", "none", "none"] + RELOADS)), min_size=2, max_size=6))
-    return {"kind": "history", "recipe": rec, "options": base, "steps": [list(s) for s in steps]}
+    steps = [list(s) for s in steps]
+    if rec.get("meta", {}).get("two_districts"):
+        # make sure a feeder outage is followed by a calculation with the feeder back
+        steps = [["one_feeder_off", draw(st.integers(0, 1)), "none"], ["ok", 0, "none"]] + steps[:4]
+    return {"kind": "history", "recipe": rec, "options": base, "steps": steps}
 
 
 def eval_history(case):
@@ -499,12 +509,30 @@ def eval_history(case):
         elif step == "no_supply":
             for t in feeders:
                 net[t]["in_service"] = False
+        elif step == "one_feeder_off":
+            # partial outage of the supply: one feeder is switched off, the others stay (restored in the next step)
+            allf = [(t, i) for t in feeders for i in net[t].index]
+            t, i = allf[x % len(allf)]
+            net[t].at[i, "in_service"] = False
         elif step == "automatic":
             opts["nonlinear_method"] = "automatic"
         elif step == "other_mode":
             opts["mode"] = "hydraulics" if heat_capable and x % 2 else (base["mode"] if not heat_capable else
                                                                        ("bidirectional" if base["mode"] == "sequential" else "sequential"))
         status, ff, _ = run_and_check(net, opts)
+        if status == "ok":
+            # "every supplied in-service element has finite results": which junctions are supplied is decided by the
+            # reference reachability model on the current flags, not by the solver's own NaN pattern
+            cur = copy.deepcopy(case["recipe"])
+            for e in cur["elements"]:
+                if e["table"] in feeders and e["index"] in net[e["table"]].index:
+                    e["in_service"] = bool(net[e["table"]].at[e["index"], "in_service"])
+            want = reach(cur)["junctions"]
+            pj = net.res_junction.p_bar
+            got = {int(j) for j in pj.index[~pj.isnull()]}
+            if got != want:
+                ff.append(Finding("post_ok", "C05.ok.supplied_junction_without_result" if want - got else "C05.ok.result_for_unsupplied_junction",
+                                  {"supplied_without_result": sorted(want - got)[:6], "result_but_unsupplied": sorted(got - want)[:6]}))
         for fi in ff:
             fi.detail = dict(fi.detail, step=step, history=[s for s in seq])
         f += ff
@@ -512,6 +540,10 @@ def eval_history(case):
     tr = {(a == "ok", b == "ok") for a, b in zip(seq[:-1], seq[1:])}
     nontriv = (True, False) in tr or (False, True) in tr
     labels = {"history", "len:%d" % len(seq)} | {"status:" + s for s in seq} | {"between_runs:" + p_ for p_ in preps}
+    if case["recipe"].get("meta", {}).get("two_districts"):
+        labels.add("two_districts")
+    if any(stp[0] == "one_feeder_off" for stp in case["steps"]):
+        labels.add("partial_supply_outage")
     if (True, False) in tr:
         labels.add("success_then_failure")
     if (False, True) in tr:
